@@ -74,6 +74,9 @@ type ArrayV struct {
 	Name string
 }
 
+// EmbedV: the value of an array field whose contents live in a shadow object (created when the field is sliced).
+type EmbedV struct{ Obj *Obj }
+
 type IfaceV struct {
 	Type   *Term // BV32 type id; 0 = nil interface
 	Handle *Term // BV64 opaque identity of the dynamic value
